@@ -81,6 +81,9 @@ class C14(SessionCheck):
             return SessionCheck.shrink(self, case, still_fails)
         return case
 
+    def case_timeout(self, case):
+        return None if 'segs' in case else self.CASE_TIMEOUT
+
     def session_oracle(self, case, io):
         """Whenever the worker has stopped, for whatever reason: disconnected, every request that existed is failed or answered;
         messages the XML library cannot parse reach no request."""
@@ -99,6 +102,23 @@ class C14(SessionCheck):
                 created = next(k for k, o in enumerate(obs) if i in rpc_states(o))
                 if st == 'W' and created < failing_from and io['req_status'][i - 1] in ('sent', 'trap'):
                     return ('C14:pending-not-failed-at-stop', 'the worker stopped with request %d still waiting' % i)
+        elif info.get('finished') and io['conn_result'] == 'ok' and info.get('server_out_left', 1) == 0 and not info.get('closed'):
+            # not stopped, and everything the server sent has been read: a request whose reply was sent must have it (or an error) by
+            # now - bad input in between is dropped or ends the session, it never wedges it
+            import xml.etree.ElementTree as ET
+            proper = set()          # ids answered by an <rpc-reply> in the NETCONF base namespace (what every profile accepts)
+            for t in info.get('server_texts') or []:
+                try:
+                    r = ET.fromstring(t)
+                except Exception:
+                    continue
+                if r.tag == '{urn:ietf:params:xml:ns:netconf:base:1.0}rpc-reply' and r.get('message-id'):
+                    proper.add(r.get('message-id'))
+            for i, st in rpc_states(obs[-1]).items():
+                rid = io['req_ids'][i - 1] if i - 1 < len(io.get('req_ids', [])) else None
+                if st == 'W' and rid is not None and rid in proper and io['req_status'][i - 1] == 'sent':
+                    return ('C14:session-wedged', 'request %d: its reply was sent and completely read, the worker is still running, yet the request got '
+                            'neither the reply nor an error' % i)
         # a request only ever completes with a well-formed reply carrying its id (never garbage as data)
         for o in obs:
             for i, st in rpc_states(o).items():
